@@ -282,11 +282,15 @@ func classify(p pkt) oinfo {
 		switch i.Proto {
 		case 1:
 			o.kind = "icmp4"
-			if len(i.Payload) >= 8 && i.Payload[0] == 0 {
+			if len(i.Payload) >= 4 && i.Payload[0] == 0 {
+				// an echo reply (the stack answers requests with as few as 6 ICMP bytes)
 				o.kind = "echo4"
-				o.icmpID = binary.BigEndian.Uint16(i.Payload[4:])
-				o.icmpSeq = binary.BigEndian.Uint16(i.Payload[6:])
-				o.payload = i.Payload[8:]
+				o.icmpID, o.icmpSeq = 0xffff, 0xffff
+				if len(i.Payload) >= 8 {
+					o.icmpID = binary.BigEndian.Uint16(i.Payload[4:])
+					o.icmpSeq = binary.BigEndian.Uint16(i.Payload[6:])
+					o.payload = i.Payload[8:]
+				}
 			}
 		case 6:
 			if t, ok := netx.ParseTCP(i.Payload); ok {
